@@ -314,7 +314,7 @@ def run_pipelines(prop, tier, seed, ctx):
     res["coverage"]["distinct_nontrivial"] = sum(1 for p in progs if p.count("(") >= 3)
     res["coverage"]["nested_programs"] = sum(1 for p in progs if "concat" in p or "flatmap" in p)
     res["coverage"]["unbounded_inputs"] = sum(1 for p in progs if "(inf" in p)
-    res["coverage"]["linear_programs_run_on_composed_machines"] = sum(j.count("\nMACH") + (1 if j.startswith("MACH") else 0) for _, j in outs)
+    res["coverage"]["programs_run_on_composed_machines"] = sum(j.count("\nMACH") + (1 if j.startswith("MACH") else 0) for _, j in outs)
     for rec, judged in outs:
         for l in judged.splitlines():
             if l.startswith("FLAG "):
@@ -331,7 +331,8 @@ def run_pipelines(prop, tier, seed, ctx):
     res["coverage"]["rule"] = ("random pull pipelines (seeded): nesting depth <= 3 (4), up to 3 unary stages per level, concat! and map-then-flatten, inputs empty / "
                                "short / long / unbounded under a take; each runs on the real crate twice (for_each-like probe; real for_each) with counting "
                                "iterators; compared with the list function and the demand-driven model `sem` (outputs, completion, iterator advances); every "
-                               "LINEAR program is also run on the operator machines wired by `compose` and closed by from_iter / for_each (Closed/Exec.lean) "
+                               "program without `flatmap` is also run on the NETWORK of operator machines — stages wired by `compose`, `concat!` members plugged "
+                               "into the n-ary concat machine by `plug`, closed by from_iter / for_each (Closed/Exec.lean, Closed/LinearDef.lean) — "
                                "and must agree with `sem` (closure arguments, iterator advances, return, no panic, no monitor violation); "
                                "non-trivial = at least 3 constructors")
     return res
